@@ -13,14 +13,24 @@ THEOREMS = [P + t for t in (
     "add_sub_cancel", "add_comm", "free_eq_sub", "free_plus_alloc", "negative_fields_exact",
     "lt_iff_sub_nonneg", "gt_iff_sub_nonneg", "gt_iff_lt_swap", "eq_iff", "eq_refl", "eq_symm",
     "eq_iff_toList", "sub_negative_fields", "positive_fields_iff", "lt_add_right",
-    "no_operator_hooks", "aug_assign_pure", "running_total")]
+    "sub_add_cancel", "add_assoc", "add_zero", "sub_zero", "sub_self", "sub_sub", "free_after_allocation",
+    "lt_refl", "lt_trans", "lt_antisymm", "lt_iff_fields", "gt_iff_fields", "not_lt_names_deficit",
+    "eq_trans", "eq_zero_zero", "eq_zero_iff", "add_congr", "sub_congr",
+    "no_operator_hooks", "aug_assign_pure", "running_total", "step_prefix", "objects_never_modified", "object_value_stable",
+    "aug_leaves_other_holders", "fmtComma_neg", "toStr_empty_iff", "deficit_is_printable", "groupDigits_filter", "fmtComma_digits")]
 TRUSTED_BASE = [
-    "gen/capops.py: AST patterns for Capacities.__add__/__sub__/__gt__/__lt__/__eq__/negative_fields/positive_fields and FreeCapacity.__init__",
-    "Model/Cap.lean lifts the generated field operators over the field list (loop over __dict__.items()); checked differentially",
+    "gen/capops.py + gen/symexec.py: the operators are executed symbolically (all paths) on operands whose fields are distinct symbols; "
+    "the extractor checks on every path that the result is a new object, the operands hold the same objects afterwards, and that the "
+    "result / decision structure is the SAME per-field operation in every field, then replays the extracted operators on 1200 concrete "
+    "operand pairs (negative, zero, 2^63, 10^30); trusted: the symbolic int (an int subclass) behaves like an int wherever the code "
+    "does not inspect type()/id() (rejected by an AST check)",
+    "Model/Cap.lean lifts the generated field operators over the field list and models references as a store + environment "
+    "(object id = position); checked differentially on single operations and on whole programs with aliasing",
     "Python int arithmetic modelled by Lean Int; f'{v:,}' modelled by Cap.fmtComma (differential only)",
 ]
 ASSUMPTIONS = ["both operands are Capacities with the class's current field list (pickles of older versions are outside the quantifier)"]
-RULE = ("pairs/triples of capacity values over all eight fields drawn from {0,1,2,small,2^31,2^63,2^64+1,huge}; results with negative "
+RULE = ("programs of up to 13 statements (+ - += -= FreeCapacity alias) over 2..5 variables with aliasing, compared object by object; "
+        "pairs/triples of capacity values over all eight fields drawn from {0,1,2,small,2^31,2^63,2^64+1,huge}; results with negative "
         "fields are fed back as operands; non-trivial = some field non-zero in each operand; distinct by canonical operand values")
 
 EDGE = [0, 0, 0, 1, 1, 2, 3, 7, 10, 100, 1000, 4096, 2 ** 31 - 1, 2 ** 31, 2 ** 32, 2 ** 63 - 1, 2 ** 63, 2 ** 64 + 1, 10 ** 30]
@@ -93,6 +103,107 @@ def impl_eval(cl, op, a, b=None):
         return ["err", err_kind(e)]
 
 
+def gen_programs(rng, n, nfields):
+    """programs over 2..5 variables: d = x ± y, x ±= y, d = FreeCapacity(total=t, allocated=a).free, d = x (aliasing)"""
+    progs = []
+    for i in range(n):
+        nv = rng.randrange(2, 6)
+        objs = []
+        for _ in range(nv):
+            objs.append([(rng.choice(EDGE) if rng.random() < 0.3 else rng.randrange(0, 40)) * (-1 if rng.random() < 0.15 else 1) for _ in range(nfields)])
+        stmts = []
+        for _ in range(rng.randrange(1, 14)):
+            k = rng.random()
+            v = lambda: rng.randrange(nv)
+            if k < 0.3:
+                stmts.append(["bin", rng.random() < 0.5, v(), v(), v()])
+            elif k < 0.65:
+                stmts.append(["aug", rng.random() < 0.5, v(), v()])
+            elif k < 0.8:
+                stmts.append(["free", v(), v(), v()])
+            else:
+                stmts.append(["alias", v(), v()])
+        progs.append([objs, stmts])
+    z = [0] * nfields
+    o = [1] * nfields
+    # aliasing corner cases first: the same object on both sides, an alias held elsewhere, a running total
+    fixed = [
+        [[o, z], [["alias", 1, 0], ["aug", True, 0, 0]]],
+        [[o, o], [["alias", 1, 0], ["aug", False, 1, 0], ["aug", True, 1, 1]]],
+        [[z, o, [2] * nfields], [["aug", True, 0, 1], ["aug", True, 0, 2], ["aug", False, 0, 1]]],
+        [[[5] * nfields, [7] * nfields], [["free", 0, 0, 1], ["aug", True, 0, 1]]],
+        [[o, z], [["bin", True, 0, 0, 0], ["bin", False, 1, 0, 0], ["alias", 0, 1], ["aug", False, 0, 0]]],
+    ]
+    return fixed + progs
+
+
+def impl_prog(cl, objs, stmts, on_step=None):
+    """run a program on real objects; object ids = order of first appearance (by identity)"""
+    try:
+        heap = [_mk(cl, v) for v in objs]
+        env = list(heap)
+
+        def reg(o):
+            for k, h in enumerate(heap):
+                if h is o:
+                    return k
+            heap.append(o)
+            return len(heap) - 1
+        for st in stmts:
+            before = [list(_vals(h)) for h in heap] if on_step else None
+            if st[0] == "bin":
+                _, is_add, d, x, y = st
+                r = env[x] + env[y] if is_add else env[x] - env[y]
+                want = [(p + q) if is_add else (p - q) for p, q in zip(before[reg(env[x])], before[reg(env[y])])] if on_step else None
+                reg(r)
+                env[d] = r
+            elif st[0] == "aug":
+                _, is_add, x, y = st
+                want = [(p + q) if is_add else (p - q) for p, q in zip(before[reg(env[x])], before[reg(env[y])])] if on_step else None
+                t = env[x]
+                if is_add:
+                    t += env[y]
+                else:
+                    t -= env[y]
+                reg(t)
+                env[x] = t
+                r = t
+            elif st[0] == "free":
+                _, d, t, a = st
+                want = [p - q for p, q in zip(before[reg(env[t])], before[reg(env[a])])] if on_step else None
+                r = cl.FreeCapacity(total=env[t], allocated=env[a]).free
+                reg(r)
+                env[d] = r
+            else:
+                _, d, x = st
+                env[d] = env[x]
+                r, want = None, None
+            if on_step:
+                on_step(st, before, [list(_vals(h)) for h in heap], None if r is None else list(_vals(r)), want)
+        return ["ok", [[reg(o) for o in env], [_vals(h) for h in heap]]]
+    except Exception as e:
+        return ["err", err_kind(e)]
+
+
+def check_program(cl, objs, stmts, res):
+    """operands are never modified - on whole programs: every object that exists before a statement has the same value after it,
+    whoever else holds a reference to it; and the statement's result is the field-wise sum / difference of the old values"""
+    case = {"objs": objs, "stmts": stmts}
+
+    def on_step(st, before, after, result, want):
+        tag = st[0] + (":" + ("add" if st[1] else "sub") if st[0] in ("bin", "aug") else "")
+        if after[:len(before)] != before:
+            k = [i for i in range(len(before)) if after[i] != before[i]][0]
+            res.violation("C15:operands_unchanged:prog:" + tag, "a statement changed an object that existed before it (object %d)" % k, case,
+                          expected=before[k], observed=after[k])
+        elif want is not None and result != want:
+            res.violation("C15:prog_result:" + tag, "the statement's result is not the field-wise %s of the operands' values" % tag, case,
+                          expected=want, observed=result)
+    r = impl_prog(cl, objs, stmts, on_step)
+    if r[0] == "err":
+        res.violation("C15:raises:prog:" + r[1], "a capacity statement raised", case)
+
+
 def correspondence(ctx, res, n=None):
     import fim.slivers.capacities_labels as cl
     fields = list(cl.Capacities().__dict__.keys())
@@ -110,14 +221,22 @@ def correspondence(ctx, res, n=None):
             reqs.append(["neg", d[1]])
             reqs.append(["str", d[1]])
             reqs.append(["add", d[1], b])
-    impl = [impl_eval(cl, *r) for r in reqs]
+    progs = gen_programs(ctx.sub_rng("prog"), ctx.scale(400, 6000), len(fields))
+    reqs += [["prog", p[0], p[1]] for p in progs]
+    impl = [impl_prog(cl, r[1], r[2]) if r[0] == "prog" else impl_eval(cl, *r) for r in reqs]
     model = LeanDriver("C15").run([json.dumps(r) for r in reqs])
     for r, i, m in zip(reqs, impl, model):
         res.evaluations += 1
         res.count("op:" + r[0])
         if i[0] == "err":
             res.count("err:" + i[1])
-        if any(x != 0 for x in r[1]) and (len(r) < 3 or r[0] == "pos" or any(x != 0 for x in r[2])):
+        if r[0] == "prog":
+            for st in r[2]:
+                res.count("stmt:" + st[0])
+            if i[0] == "ok" and len(set(i[1][0])) < len(i[1][0]):
+                res.count("prog:ends-with-aliased-variables")
+            res.nontrivial.add(canon(r))
+        elif any(x != 0 for x in r[1]) and (len(r) < 3 or r[0] == "pos" or any(x != 0 for x in r[2])):
             res.nontrivial.add(canon(r))
         if json.loads(m) != i:
             res.disagreements.append({"case": r, "impl": i, "model": json.loads(m)})
@@ -205,6 +324,11 @@ def oracle(ctx, res, n=None):
         if any(a) and any(b):
             res.nontrivial.add(canon([a, b]))
         check_laws(cl, a, b, c, res)
+    progs = gen_programs(ctx.sub_rng("oracle-prog"), (n or ctx.scale(3000, 100000)) // 6, nf)
+    for objs, stmts in progs:
+        res.evaluations += 1
+        res.count("oracle:program")
+        check_program(cl, objs, stmts, res)
     res.sample({"a": cases[9][0], "b": cases[9][1], "laws": "all C15 laws evaluated on the implementation"})
 
 
@@ -217,7 +341,10 @@ def replay(ctx, payload):
     from core import Result
     r = Result()
     c = payload["case"]
-    check_laws(cl, c["a"], c["b"], c["c"], r)
+    if "stmts" in c:
+        check_program(cl, c["objs"], c["stmts"], r)
+    else:
+        check_laws(cl, c["a"], c["b"], c["c"], r)
     for v in r.violations:
         print("  ", v["signature"], v["what"])
     return bool(r.violations)
